@@ -27,6 +27,7 @@ from typing import (
 import lupa.lua51 as lupa
 from lupa.lua51 import lua_type
 
+from .common import is_positional_name
 from .interwiki import mw_site_interwikiMap
 from .parserfns import (
     PARSER_FUNCTIONS,
@@ -446,6 +447,10 @@ def call_lua_sandbox(
             frame_args = {}
             for k, arg in args.items():
                 arg = re.sub(r"(?si)(<\s*noinclude\s*/\s*>|\n$)", "", arg)
+                if isinstance(k, int) and k >= 2**63:
+                    # does not fit a Lua integer (as in PHP, where such a
+                    # numeric name stays a string key)
+                    k = str(k)
                 # Already expanded by the template machinery: only turn
                 # what is left of the encoding back into text
                 frame_args[k] = (ctx._finalize_expand(arg), False, True)
@@ -459,7 +464,7 @@ def call_lua_sandbox(
                 if m is not None:
                     # named parameter
                     k, arg = m.groups()
-                    if k.isdecimal() and int(k) > 0:
+                    if is_positional_name(k):
                         # Greek wiktionary uses '0', '00' and '000' as
                         # parameter names...
                         k = int(k)
